@@ -300,11 +300,14 @@ theorem layer_per_connection : layerPerConnection = true := rfl
 theorem datagram_read_buffer_is_mtu : datagramReadBufferIsMTU = true := rfl
 
 /-- **deadlines_are_finite** — what `expiry_finite` rests on: `Entry.validUntil` is an `Int`, the model has no "never".  In
-    the code the cache treats the zero time as "never expires"; that no entry ever gets it is read from the source: every
-    deadline handed to `cache.NewElement` is the context's deadline or `time.Now().Add(b.expiration)` — also for an
-    expiration of 0 (`deadlinesAreNowPlusExpiration`; any other shape fails the extractor).  The judge's `leak` clause checks
-    the consequence on every history: long after every deadline, both sides swept, no cache entry is held. -/
-theorem deadlines_are_finite : deadlinesAreNowPlusExpiration = true := rfl
+    the code the cache treats the zero time as "never expires".  Read from the source: every deadline handed to
+    `cache.NewElement` is the context's deadline or `time.Now().Add(b.expiration)` — also for an expiration of 0
+    (`deadlinesAreNowPlusExpiration`; any other shape fails the extractor) — with ONE exception since repair F35: the entry
+    `Do` makes for its request gets the context's deadline or, without one, the zero time, and is removed by `Do`'s
+    deferred `Delete` when the call returns (`doEntryLivesAsLongAsTheCall`; modelled by `Model.Blockwise.never`).  The
+    judge's `leak` clause checks the consequence on every history: long after every deadline, both sides swept and every
+    call returned, no cache entry is held. -/
+theorem deadlines_are_finite : deadlinesAreNowPlusExpiration = true ∧ doEntryLivesAsLongAsTheCall = true := ⟨rfl, rfl⟩
 
 /-- **caches_own_their_messages** — what "an entry's message is the reassembly buffer of its token, and only of it" rests
     on: the model's entries hold values; in the code they hold pooled messages, and a message handed back to the pool while
